@@ -63,7 +63,7 @@ fn reference(sel: u8, settings_seen: bool) -> Option<Result<u64, ()>> {
 
 fn remote_run(events: [Ev; 3], sels: [u8; 3], n: usize) {
     let mut rs = RemoteSettingsStream::empty();
-    rs.set_stream(StreamUniRemoteH3 { script: Script { events, n, reads: 0 } });
+    rs.set_stream(StreamUniRemoteH3::control(Script { events, n, reads: 0 }));
     let out = poll_once(rs.run()).expect("run() pending although the scripted stream never is");
     // reference run
     let mut seen = false;
@@ -206,7 +206,7 @@ fn d_local_settings() {
 #[kani::unwind(8)]
 fn d_settings_twin_must_fail() {
     let mut rs = RemoteSettingsStream::empty();
-    rs.set_stream(StreamUniRemoteH3 { script: Script { events: [ev(4), ev(9), ev(9)], n: 2, reads: 0 } });
+    rs.set_stream(StreamUniRemoteH3::control(Script { events: [ev(4), ev(9), ev(9)], n: 2, reads: 0 }));
     let out = poll_once(rs.run()).unwrap();
     assert!(matches!(out, DriverError::NotConnected), "twin: wrong oracle");
     core::mem::forget(out);
